@@ -17,7 +17,7 @@ ASSUMPTIONS = ["NoAlias: a frame delayed by the network for 2^32 frame ids / 2^2
 RULE = ("two real HalfConnections, send histories over up to 64 channels x 4 modes x sizes around the fragment boundaries, per-frame fates in both directions (drop, duplicate, "
         "delay/reorder, 1-4 bit flips), initial packet/frame ids at 0, random and within one window of 2^20 / 2^32, windows 4/16/64/4096 cycled many times, long runs of packets "
         "behind an unacknowledged Reliable packet (parent leads crossing the 127/128 and 255/256 header thresholds); oracle: per channel the delivered payloads are a duplicate-free "
-        "subsequence of the submitted ones. Non-trivial: >= 5 packets delivered under at least one fault.")
+        "subsequence of the submitted ones. Non-trivial: >= 5 packets delivered under at least one fault. Round-6 family: two hand-overs of one channel during a stall of the other, around a lost Persistent packet, resends in a planned order.")
 
 def long_lead_scenario(r, it):
     """A Reliable packet on channel c is lost again and again while small packets follow it, so that the parent leads in
@@ -123,6 +123,56 @@ def streams(rng, tier, ctx):
                 sim.meta = {"cfg": cfg}
             elif i % 4 == 3:
                 sim = long_lead_scenario(r, it)
+            elif i % 8 == 2:
+                # two hand-overs during one stall: Reliable packets on channel a are lost at first (the window stalls at the first of
+                # them), meanwhile channel b delivers twice - before and after a lost Persistent packet of channel b that lies
+                # beyond a second missing Reliable packet. The resends then arrive in the order: first Reliable, the Persistent one,
+                # second Reliable - the Persistent packet is late for its channel and must not be delivered after its successor.
+                cfg = pick_cfg(r); cfg["pw"] = r.pick([16, 64, 4096]); cfg["fw"] = r.pick([64, 4096])
+                cfg["bwA"] = cfg["bwB"] = 20_000_000; cfg["allocA"] = cfg["allocB"] = 1_000_000
+                sim = Sim(r, cfg, inter=it)
+                ok = Net(latency=r.pick([0, 1_000_000]))
+                def warm2(sim, ep):
+                    if ep == "A" and sim.tick < 100:
+                        for _ in range(3):
+                            sim.send("A", 2, 1, 1000)
+                sim.run(130, 5_000_000, ok, ok, warm2)
+                for _ in range(120):
+                    sim.run(1, 5_000_000, ok, ok)
+                    pa = sim.probe("A")
+                    if sim.dead or pa is None or (pa["ps"][0] == pa["ps"][1] and sim.quiescent()):
+                        break
+                a, b = r.pick([(1, 0), (0, 1), (3, 0)])
+                sz = lambda: r.range(900, 1400)
+                plan = [(a, 3, "lost", 0)]                                  # (channel, mode, fate of the first copy, delay of the resend)
+                plan += [(b, r.pick([1, 1, 3]), "ok", 0) for _ in range(r.range(1, 2))]
+                first = len(plan)
+                plan += [(a, 3, "lost", r.pick([60, 80, 120]) * 1_000_000)]
+                plan += [(b, 2, "lost", r.pick([10, 20, 30]) * 1_000_000)]
+                plan += [(b, r.pick([1, 1, 3]), "ok", 0) for _ in range(r.range(1, 2))]
+                pk = []
+                index = {}
+                seen = set()
+                def fate2(sim, ep, idx, f, plan=plan, seen=seen, index=index):
+                    if ep != "A" or f["kind"] != "D":
+                        return None
+                    ks = [index[d["dfnv"]] for d in f["dgs"] if d["dfnv"] in index]
+                    if not ks:
+                        return None
+                    k = ks[0]
+                    if k in seen:
+                        return [plan[k][3]]
+                    seen.add(k)
+                    return [] if plan[k][2] == "lost" else [0]
+                sim.fate_fn = fate2
+                for k, (ch, mode, _, _) in enumerate(plan):
+                    if k == first:
+                        sim.run(r.range(2, 4), 5_000_000, ok, ok)       # channel b hands over what it has; then the second batch
+                    pk.append(sim.send("A", ch, mode, sz()))
+                    index[pk[-1].frag_fnv[0]] = k
+                sim.run(r.range(300, 500), 5_000_000, ok, ok)
+                sim.fate_fn = None
+                sim.meta = {"cfg": cfg}
             elif i % 8 == 4:
                 # fragment bookkeeping: packets of 3..6 fragments whose last fragment is lost at first, while fragment 0 arrives twice,
                 # the second copy after later fragments have been written (order 0, 1, 0, 2, ...): nothing may be delivered before
